@@ -454,6 +454,9 @@ pub fn buffers(tr: &mut Trace, rng: &mut Rng, thorough: bool) {
             ("Ix3", vec![2, 1, 3]),
             ("IxDyn", vec![2]),
             ("IxDyn", vec![2, 3]),
+            ("Ix1", vec![0]),
+            ("Ix2", vec![0, 2]),
+            ("IxDyn", vec![0]),
         ];
         for (tag, qshape) in qshapes {
             let nq: usize = qshape.iter().product();
